@@ -277,7 +277,8 @@ static void begin_case(uint64_t idx)
   hv_desc_reset();
   off_t pos = lseek(err_fd, 0, SEEK_END);
   if (pos > 0) { if (ftruncate(err_fd, 0)) {} lseek(err_fd, 0, SEEK_SET); }
-  struct itimerval it = { {0, 0}, { (time_t)hv_cpu_limit_s, 0 } };
+  static unsigned scale; if (!scale) { const char *e = getenv("VERIF_CPU_SCALE"); scale = e && atoi(e) > 0 ? (unsigned)atoi(e) : 1; }   /* valgrind stages run 20-50x slower */
+  struct itimerval it = { {0, 0}, { (time_t)hv_cpu_limit_s * scale, 0 } };
   setitimer(ITIMER_PROF, &it, NULL);
   S->running = 1;
 }
